@@ -86,7 +86,7 @@ def parse_xml(fileobj, namespace_mapping=None):
     def convert_node(node):
         if node.nodeType == xml.dom.Node.ELEMENT_NODE:
             return convert_element(node)
-        elif node.nodeType == xml.dom.Node.TEXT_NODE:
+        elif node.nodeType in (xml.dom.Node.TEXT_NODE, xml.dom.Node.CDATA_SECTION_NODE):
             return XmlText(node.nodeValue)
         else:
             return None
